@@ -8,14 +8,14 @@ from ..explore_r import (Scenario, S, mkcfg, bl, sl, HOOK_KINDS, EventHook, Prob
                          ProbeMarket, ProbeIndexMarket)
 from ..scenarios_r import CL
 
-WIT = ["order_occurrences", "cancel_occurrences", "cancel_later_than_order", "fill_occurrences", "hook_invocations",
+WIT = ["order_occurrences", "cancel_occurrences", "cancel_later_than_order", "cancel_of_filled_order", "fill_occurrences", "hook_invocations",
        "spec_time_none", "spec_time_empty", "spec_time_duplicate", "altered_order_accepted"]
 RULE = ("one probe event carrying every single hook specification (9 hook kinds x time lists None/[]/[t]/[t,t']/[t,t] x market "
         "filters) and every pair of specifications, run through the real runner in a two-session, three-market (incl. index "
         "market) trading scenario with deviations of schedules and agent programs; invocations recorded by the probe are "
         "compared as a multiset with the occurrences recorded by the probe markets; distinct = outcome digests")
 
-MENU13 = [[], [bl(0, 101)], [sl(0, 99)], [bl(1, 101)], [sl(1, 99)], [CL], [bl(0, 100), sl(1, 100)]]
+MENU13 = [[], [bl(0, 101)], [sl(0, 99)], [bl(1, 101)], [sl(1, 99)], [CL], [bl(0, 100), sl(1, 100)], [["C", "dead"]]]
 TIMES = [None, [], [0], [1], [2], [3], [1, 3], [2, 2]]
 FILTERS = [None, "cls:Market", "cls:IndexMarket", "inst:0", "inst:0+cls:Market", "inst:0+cls:IndexMarket", "inst:2+cls:IndexMarket"]
 
@@ -33,7 +33,7 @@ def scn_for(name, specs, alter=None, two_events=False):
     markets = [dict(name="M0", shares=1), dict(name="M1", shares=2),
                dict(name="IDX", cls="ProbeIndexMarket", components=["M0", "M1"])]
     ags = [dict(name="A0", menu=MENU13, program=[1, 3, 1, 5], markets=["M0", "M1"]),
-           dict(name="A1", menu=MENU13, program=[2, 4, 2, 4], markets=["M0", "M1"])]
+           dict(name="A1", menu=MENU13, program=[2, 4, 2, 7], markets=["M0", "M1"])]
     ev = {"E": {"class": "ProbeEvent", "hooks": specs}}
     if alter:
         ev["E"]["alter"] = alter
